@@ -195,6 +195,7 @@ func (x *Exec) freshResult(s *State, resT types.Type, name string) *Val {
 }
 
 func (x *Exec) havocObj(s *State, id int) {
+	s.ver++
 	m := x.objMeta[id]
 	if m == nil {
 		return
